@@ -98,6 +98,36 @@ pub fn field_families(repo: &str, quick: bool) -> Vec<(&'static str, Vec<MLangId
         fam.push(mk(None, Some("Latn"), Some("IT"), &v));
     }
     out.push(("variants", fam));
+    // long variant lists (count ladder, DESIGN 0.8): for every n the first n variants of a generated
+    // alphabet, the same list with its first / middle / last element replaced by a variant that is
+    // not in it, and without its first / last element -- every ordered pair of them, so that two
+    // long lists differ in exactly one position, in length only, or not at all (a comparison
+    // that changes its algorithm at a count, or that stops early, lives here)
+    let va = super::counts::variant_alphabet();
+    let n_max = if quick { 24 } else { 40 };
+    let mut fam = vec![];
+    for n in 0..=n_max {
+        let base: Vec<&str> = va[..n].to_vec();
+        let mut lists: Vec<Vec<&str>> = vec![base.clone()];
+        if n >= 1 {
+            for k in [0, n / 2, n - 1] {
+                let mut x = base.clone();
+                x[k] = va[n_max + 1 + k % 3];
+                x.sort();
+                lists.push(x);
+            }
+            lists.push(base[1..].to_vec());
+            lists.push(base[..n - 1].to_vec());
+        }
+        lists.sort();
+        lists.dedup();
+        for v in &lists {
+            fam.push(mk(Some("sl"), None, None, v));
+        }
+    }
+    fam.sort_by_key(|m| m.canon());
+    fam.dedup_by_key(|m| m.canon());
+    out.push(("variant_counts", fam));
     out
 }
 
